@@ -187,7 +187,7 @@ SEARCH_TRUST = CORE_TRUST + ["model/Search.v transcribes Engine::search / search
                             "(a public trait implemented by the harness); log formatting not modelled"]
 PROPS["C11"] = dict(
     jobs=lambda ctx: [dict(sub=["search", q(ctx, 25, 400), q(ctx, 500, 3000)], shards=16, timeout=3000)],
-    relevant=r"returned move is legal|no legal move|move returned when|never panics|model:move|model:score|model:max_depth|fuel|position-rejected|harness-crash",
+    relevant=r"returned move is legal|no legal move|move returned when|never panics|stable ABI|model:move|model:score|model:max_depth|fuel|position-rejected|harness-crash",
     rule="roots = 16 mate-in-one positions + the 35-position corpus (incl. roots with no legal move, stalemate, one legal move, 100-ply clock) + seeded generated "
          "positions; for every root the timeout expires at poll k for k = 0..5, a geometric ladder up to 500 (quick) / 3000 (thorough) and random k; terminal "
          "roots additionally at k = 65535, 65536, 65537, 70000; (move, score, max_depth) compared with the poll-exact model, the returned move checked against "
@@ -206,8 +206,8 @@ PROPS["C12"] = dict(
 )
 PROPS["C13"] = dict(
     jobs=lambda ctx: [dict(sub=["mirror", q(ctx, 40, 600), q(ctx, 1500, 6000)], shards=16, timeout=3000)],
-    relevant=r"mirror|negated|never panics|position-rejected|harness-crash",
-    rule="generated positions without a promotion move at the root (and half-move clock < 90), empty repetition history, default Engine; the position and its colour "
+    relevant=r"mirror|negated|symmetry|never panics|position-rejected|harness-crash",
+    rule="generated positions without a promotion move at the root (and half-move clock < 90), plus roots whose leading side holds exactly / nearly the evaluation's 1800-point endgame threshold (Q+R+4P, 2R+8P, 2B+2N+5P ...) and roots where the side to move is mated by force; empty repetition history, default Engine; the position and its colour "
          "mirror (built by the harness, checked equal to Rules.mirror) are searched under the same ladder of counting timeouts; for every depth both complete the "
          "reported scores must be negations of each other",
     trusted_base=SEARCH_TRUST,
@@ -252,6 +252,7 @@ def c07_jobs(ctx):
             dict(sub=["bitboard", q(ctx, 500, 50000)], timeout=3000, **extra),
         ]
     jobs.append(dict(sub=["epfamily", q(ctx, 60, 2)], shards=q(ctx, 1, 8), timeout=3000))
+    jobs.append(dict(sub=["walk", q(ctx, 3000, 60)], shards=16, timeout=3000))
     return jobs
 
 
@@ -261,7 +262,7 @@ PROPS["C07"] = dict(
     relevant=r"never-panics|never panics|TRAP|harness-crash|CRASH|parser-model-traps",
     rule="trap runs: every safe operation (parse, build, generate, mask/iterate/remove, apply through the checked ops, hash, print, search under counting "
          "timeouts incl. terminal roots beyond 65536 polls, full book walk, every blocker subset of every slider square, bitboard iterators) on the shared "
-         "position stream incl. the extremal 18-entry move lists (16 mobile men + two en-passant capturers), in a build with overflow checks, debug "
+         "position stream incl. the extremal 18-entry move lists (16 mobile men + two en-passant capturers), FENs with 15..24 mobile men on one side, full-width depth-3 walks from en-passant roots with an extra knight/pawn/slider possibly giving check, iterator sequences that mask/remove inside a promotion group, in a build with overflow checks, debug "
          "assertions and std's unsafe-precondition checks (any violation = panic/abort seen as TRAP or as a dead harness) and in a plain release build",
     trusted_base=CORE_TRUST + ["memory safety of the unsafe blocks GIVEN their preconditions (set_mask's pointer walk, arrayvec, abi_stable) is Rust's / the crates', "
                               "not modelled: C07 is partial in that sense", "panic / abort detection: catch_unwind + process exit status"],
